@@ -63,6 +63,36 @@ def check_case(case):
                 s.set_comp_phases(t["n"], copy.deepcopy(t["pc"]))
             t["r"] = "moved_" + t["n"]
             res.classes.add("rerailed")
+    if case.get("kind_change"):
+        # change_comp across the load / non-load boundary with a rail argument: a load turned into a series element GETS the rail (and feeds a new
+        # consumer attached by name); a childless series element turned into a load LOSES it (rail not applicable on loads)
+        import warnings as _w
+        from ..sysmodel import make_comp
+        if case.get("analyse_first"):
+            quiet_call(s.rail_rep)
+        kids = {p for c in spec["comps"] for p in c["p"]}
+        rails_ = {c["r"] for c in spec["comps"] if c.get("r")}
+        P = letters(case["pal"])
+        with _w.catch_warnings():
+            _w.simplefilter("ignore")
+            if case["kind_change"] == "load2series":
+                t = [c for c in spec["comps"] if c["k"] in LOADS][-1:]
+                if not t:
+                    return res
+                t = t[0]
+                t["k"], t["a"], t["lim"], t["r"], t["pc"] = "RLoss", dict(rs=P["RL"][1]["rs"]), None, "kc_" + t["n"], None
+                s.change_comp(t["n"], comp=make_comp(t), rail=t["r"])
+                new = dict(n="kcL", k="ILoad", a=dict(P["IL"][1]), p=[t["n"]], g="", r="", pc=None, lim=None)
+                s.add_comp(t["n"], comp=make_comp(new))
+                spec["comps"].append(new)
+            else:
+                t = [c for c in spec["comps"] if c["k"] not in LOADS and c["k"] not in ("Source", "PMux") and c["n"] not in kids and c["n"] not in rails_ and (c.get("r") or "") not in kids][-1:]
+                if not t:
+                    return res
+                t = t[0]
+                t["k"], t["a"], t["lim"], t["r"], t["pc"] = "ILoad", dict(P["IL"][1]), None, "", None
+                s.change_comp(t["n"], comp=make_comp(t), rail="kc_" + t["n"])
+        res.classes.add("kind-changed")
     res.stats["transitions"] += len(spec["comps"]) + 2
     try:
         df, _ = quiet_call(s.solve, vtol=1e-6, itol=1e-6)  # explicit, so that the two methods cannot differ through their defaults
@@ -85,6 +115,9 @@ def check_case(case):
         return res
     if rr is None:
         res.v(("C08.returns-none",), "rails are defined but rail_rep() returned None")
+        return res
+    if "Rail" not in rr.columns or "Component" in rr.columns:
+        res.v(("C08.not-a-rail-table",), "rails are defined but rail_rep() returned a table with columns %s" % list(rr.columns)[:6])
         return res
     phases = list(spec["phases"]) if spec.get("phases") else [""]
     got = {}
@@ -169,6 +202,9 @@ def check_case(case):
                 res.v(("C08.single-phase-raises", type(e).__name__), str(e))
                 continue
             one = {}
+            if r1 is not None and "Rail" not in r1.columns:
+                res.v(("C08.not-a-rail-table", "single-phase"), "rail_rep(phase=%r) returned columns %s" % (ph, list(r1.columns)[:6]))
+                continue
             for r in (r1.to_dict("records") if r1 is not None else []):
                 one[r["Rail"]] = r
             allp = {k[1]: v for k, v in got.items() if k[0] == ph}
@@ -200,6 +236,10 @@ def gen_cases(tier):
                 if any(mask) and n <= 2:
                     yield dict(fam="tree", f=f, pal=pal, mask=list(mask), by_rail=False, rerail=True)
                     yield dict(fam="tree", f=f, pal=pal, mask=list(mask), by_rail=True, hot=True)
+                if n <= 2:
+                    for kc in ("load2series", "series2load"):
+                        for af in (False, True):
+                            yield dict(fam="tree", f=f, pal=pal, mask=list(mask), by_rail=False, kind_change=kc, analyse_first=af)
                 if n <= 2 or (tier != "quick" and n == 3):
                     for c in spec["comps"][1:]:
                         opts = pc_options(c, PH2, full=False)[1:2]
@@ -223,7 +263,7 @@ def replay(doc):
 def main(tier):
     run = Run(PROP, tier, replay)
     run.map(check_case, gen_cases(tier), chunk=32, family="rails")
-    for c in ("rail-feeds-mux", "rail-with-warning", "no-rails", "rerailed", "tp-warning-at-60"):
+    for c in ("rail-feeds-mux", "rail-with-warning", "no-rails", "rerailed", "tp-warning-at-60", "kind-changed"):
         run.require(c in run.classes, "class %s never observed" % c)
     return run.finish(
         rule="E1-rail: every tree n<=3 (4 thorough) over {RLoss, Converter, LinReg, PSwitch, 1-input PMux, a converter and a load that always warn, PLoad, loss-RLoad} x every "
